@@ -131,6 +131,7 @@ def oracle(cases, module='Oracle', cfg=None, workers=16, timeout_s=900, env=None
     total_states = 0
     total_distinct = 0
     wall = 0.0
+    in_vm = [0]
     d = scratch('oracle-')
     try:
         for k in range(0, len(cases), chunk):
@@ -147,7 +148,11 @@ def oracle(cases, module='Oracle', cfg=None, workers=16, timeout_s=900, env=None
 
             def got(o):
                 out[o['id']] = o['out']
+                if o.get('vm'):
+                    in_vm[0] += 1
             r = run(module, cfg, env=ee, workers=workers, timeout_s=timeout_s, on_json=got)
+            if r.violation:     # an invariant of the oracle module itself (OracleVM!VMAgrees): the specification is inconsistent
+                raise TLCError('%s: %s' % (module, r.violation[:3000]))
             total_states += r.states
             total_distinct += r.distinct
             wall += r.wall
@@ -157,4 +162,4 @@ def oracle(cases, module='Oracle', cfg=None, workers=16, timeout_s=900, env=None
     missing = [c['id'] for c in cases if c['id'] not in out]
     if missing:
         raise TLCError('oracle produced no result for %d cases (first ids %s)' % (len(missing), missing[:5]))
-    return out, {'states': total_states, 'distinct': total_distinct, 'wall': wall}
+    return out, {'states': total_states, 'distinct': total_distinct, 'wall': wall, 'in_vm': in_vm[0]}
